@@ -1,2 +1,3 @@
 //! shared helpers for the verification harness binaries
 pub mod util;
+pub mod arch;
